@@ -277,6 +277,88 @@ fn abs_replay(args: &[String]) -> i32 {
     0
 }
 
+// ------------------------------------------------------------------------------------------------
+// record (J): random collision-prone unit / variable definitions on a fresh context, for Trace_PrefixParser.tla
+
+fn chars_json(s: &str) -> J {
+    J::Array(s.chars().map(|c| if c.is_ascii() { json!(c.to_string()) } else { json!(format!("U+{:04X}", c as u32)) }).collect())
+}
+
+fn record(args: &[String]) -> i32 {
+    let seed = arg_u64(args, "--seed", 1);
+    let events = arg_u64(args, "--events", 200) as usize;
+    let nprobes = arg_u64(args, "--probes", 24) as usize;
+    let spellings: Vec<String> = std::fs::read_to_string(arg(args, "--spellings").expect("--spellings")).unwrap()
+        .lines().map(|l| l.trim().to_string()).filter(|l| !l.is_empty()).collect();
+    let mut rng = Rng::new(seed);
+    let mut ctx = new_context(&[], false);
+    assert!(run_input(&mut ctx, "dimension Zq").outcome == "ok");
+    let letters: Vec<char> = "madkGiKbluocpnh".chars().collect();
+    let mut names: Vec<String> = vec![];        // every name attempted so far (accepted or not)
+    let mut out = Out::new(arg(args, "--out"));
+    let mut n = 0;
+    let mut guard = 0;
+    while n < events && guard < events * 50 {
+        guard += 1;
+        // a name that is likely to collide with what exists
+        let name: String = match rng.below(8) {
+            0 | 1 => (0..1 + rng.below(3)).map(|_| *rng.pick(&letters)).collect(),
+            2 | 3 if !names.is_empty() => format!("{}{}", rng.pick(&spellings), rng.pick(&names)),
+            4 if !names.is_empty() => { let x = rng.pick(&names); x.chars().skip(1 + rng.below(2) as usize).collect() }
+            5 => rng.pick(&spellings).clone(),
+            6 => format!("{}{}", rng.pick(&spellings), rng.pick(&spellings)),
+            _ => format!("{}{}", rng.pick(&spellings), (0..1 + rng.below(2)).map(|_| *rng.pick(&letters)).collect::<String>()),
+        };
+        if name.is_empty() || name.chars().count() > 14 || !one_identifier(&name) {
+            continue;
+        }
+        let is_unit = rng.chance(4, 5);
+        let (short, long) = *rng.pick(&[(true, false), (false, true), (true, true), (false, false)]);
+        let (metric, binary) = *rng.pick(&[(true, false), (true, false), (false, true), (true, true), (false, false)]);
+        let code = if is_unit {
+            let ap = match (short, long) { (true, false) => "short", (false, true) => "long", (true, true) => "both", _ => "none" };
+            format!("{}{}@aliases({name}: {ap})\nunit {name}: Zq", if metric { "@metric_prefixes\n" } else { "" }, if binary { "@binary_prefixes\n" } else { "" })
+        } else {
+            format!("let {name} = 3")
+        };
+        let r = run_input(&mut ctx, &code);
+        let ok = r.outcome == "ok";
+        if !ok && r.outcome != "nameres" {
+            eprintln!("unexpected outcome for {code:?}: {} {} {}", r.outcome, r.kind, r.message);
+            return 3;
+        }
+        if !names.contains(&name) {
+            names.push(name.clone());
+        }
+        // probes: the name itself, the name behind random spellings, other names behind random spellings, tails
+        let mut ids: Vec<String> = vec![name.clone()];
+        while ids.len() < nprobes {
+            let base = if rng.chance(1, 2) { &name } else { rng.pick(&names) };
+            let id = match rng.below(6) {
+                0 => base.clone(),
+                1 => base.chars().skip(1).collect(),
+                _ => format!("{}{}", rng.pick(&spellings), base),
+            };
+            if !id.is_empty() {
+                ids.push(id);
+            }
+        }
+        let probes: Vec<J> = ids.iter().map(|id| {
+            let r = match numbat::verif::resolve_identifier(&ctx, id) {
+                None => json!([]),
+                Some((kind, exp, alias, _)) => json!([{"kind": kind, "exp": exp, "alias": chars_json(&alias)}]),
+            };
+            json!({"id": chars_json(id), "r": r})
+        }).collect();
+        out.line(&json!({"op": if is_unit { "unit" } else { "other" }, "name": chars_json(&name), "text": name,
+                         "short": is_unit && short, "long": is_unit && long, "metric": is_unit && metric, "binary": is_unit && binary,
+                         "ok": ok, "probes": probes}));
+        n += 1;
+    }
+    out.flush();
+    0
+}
+
 fn main() {
-    nvh::main_dispatch(&[("dump", dump), ("replay", replay), ("abs-replay", abs_replay)]);
+    nvh::main_dispatch(&[("dump", dump), ("replay", replay), ("abs-replay", abs_replay), ("record", record)]);
 }
